@@ -621,6 +621,8 @@ class TrainRun:
         self.calls = []
         gs = start
         for link in plan["chain"]:
+            if gs >= 200:
+                self.res.fault("large_global_step")
             if link.get("global_step") is not None:
                 gs = link["global_step"]  # e.g. a fresh run (global_step=0) that re-uses the buffer of an earlier one
                 self.res.fault("restart_counter_with_reused_state")
